@@ -460,7 +460,9 @@ func runCrash(prop, tier string) int {
 	r := eng.NewRun(prop, tier, "fault_enumeration", "crashx")
 	pool := eng.NewPool("crashx")
 	pool.Env = []string{"VERIF_CRASH_PROP=" + prop}
-	pool.Guard = 10 * time.Minute
+	// one task = all crash / tail-loss images of one transition: minutes in the thorough tier.
+	// (The guard fires on an idle or endlessly spinning worker, not on the wall clock.)
+	pool.Guard = 20 * time.Minute
 	pool.Start()
 	defer pool.Close()
 	st := &seqx.Stats{FPs: map[uint64]struct{}{}}
